@@ -173,7 +173,7 @@ impl Check for C11 {
         let mut o = Outcome::pass();
         o.case_hash = crate::engine::fnv(&file.file) | 1;
         o.classes = file.classes.clone();
-        o.classes.extend(case.classes.iter().filter(|c| c.starts_with("toc:") || c.starts_with("multi") || c.starts_with("tx:squeeze") || c.starts_with("image:")).cloned());
+        o.classes.extend(case.classes.iter().filter(|c| c.starts_with("toc:") || c.starts_with("preview:") || c.starts_with("multi") || c.starts_with("tx:squeeze") || c.starts_with("image:")).cloned());
         if describe {
             o.describe = Some(json!({"file_len": n, "cuts": cuts.len(), "classes": o.classes, "image": case.desc}));
         }
